@@ -213,6 +213,14 @@ func vdAllocSite(fn func() ([]string, error)) string {
 
 // ---------------------------------------------------------------- worker
 
+// vdExact: a copy whose capacity equals its length (what broker.go reads responses into), so
+// that slicing past the end faults instead of silently reading spare capacity
+func vdExact(b []byte) []byte {
+	out := make([]byte, len(b))
+	copy(out, b)
+	return out[:len(b):len(b)]
+}
+
 func vdLimitAddressSpace() {
 	b, err := os.ReadFile("/proc/self/statm")
 	if err != nil {
@@ -238,7 +246,9 @@ type vdSubjInfo struct {
 	HasRecs bool     `json:"hasrecs"`
 	Comp    bool     `json:"comp"`
 	Wrapped bool     `json:"wrapped"`
+	HasCrc  bool     `json:"hascrc"`
 	Valid   string   `json:"valid"` // res of the unmutated encoding (must be ok)
+	VErr    string   `json:"verr"`
 	Hex     string   `json:"hex"`
 }
 
@@ -318,11 +328,11 @@ func TestVerifDecoderWorker(t *testing.T) {
 		if start == 0 {
 			// the valid encoding first: warms pools / lazily built decompressors, gives the
 			// reference digests
-			fin := s.final(s.valid)
+			fin := vdExact(s.final(s.valid))
 			vdGuard(func() ([]string, error) { return s.run(fin) })
 			r, _ := vdGuard(func() ([]string, error) { return s.run(fin) })
 			put("S", vdSubjInfo{Si: si, Name: s.name, Ver: int(s.ver), Len: len(fin), NCells: len(tp.cells), NPush: len(tp.pushes),
-				NCases: len(cases), Orig: r.Got, HasRecs: s.hasRecs, Comp: s.comp, Wrapped: s.wrap != nil, Valid: r.Res,
+				NCases: len(cases), Orig: r.Got, HasRecs: s.hasRecs, Comp: s.comp, Wrapped: s.wrap != nil, HasCrc: tp.hasCrc(), Valid: r.Res, VErr: r.Err,
 				Hex: hex.EncodeToString(fin)})
 		}
 		for ci := start; ci < len(cases); ci++ {
@@ -331,14 +341,20 @@ func TestVerifDecoderWorker(t *testing.T) {
 			if err := vdTry(func() error { fin = s.final(c.inner); return nil }); err != nil {
 				continue // the wrapper could not be built around these inner bytes: not an input
 			}
+			fin = vdExact(fin)
+			run := s.run
+			if c.RunVer >= 0 {
+				rv := int16(c.RunVer)
+				run = func(b []byte) ([]string, error) { return s.runAt(b, rv) }
+			}
 			hx := ""
 			if len(fin) <= 160 {
 				hx = hex.EncodeToString(fin)
 			}
 			put("B", vdBegin{Si: si, Ci: ci, InLen: len(fin), Case: c, Hex: hx})
-			r, exit := vdGuard(func() ([]string, error) { return s.run(fin) })
+			r, exit := vdGuard(func() ([]string, error) { return run(fin) })
 			if !exit && r.Res != "panic" && r.Alloc > vdAllocBoundKiB(len(fin), s.comp) {
-				r.Site = vdAllocSite(func() ([]string, error) { return s.run(fin) })
+				r.Site = vdAllocSite(func() ([]string, error) { return run(fin) })
 				r.Cause = "alloc"
 			}
 			put("R", r)
@@ -573,7 +589,10 @@ func TestVerifDecoder(t *testing.T) {
 			bySubj[d.B.Si] = append(bySubj[d.B.Si], d)
 		}
 	}
+	// trace.ndjson: what TLC judges; detail.ndjson: the same events with everything that describes
+	// them (for the findings' features), same t/i numbering
 	rec := vOpenRec(t, "trace.ndjson")
+	det := vOpenRec(t, "detail.ndjson")
 	byRes := map[string]int{}
 	byKind := map[string]int{}
 	var samples []kv
@@ -588,20 +607,24 @@ func TestVerifDecoder(t *testing.T) {
 	for _, si := range sis {
 		in := infos[si]
 		if in.Valid != "ok" {
-			t.Fatalf("subject %s v%d: the valid encoding does not decode (%s)", in.Name, in.Ver, in.Valid)
+			t.Fatalf("subject %s v%d: the valid encoding does not decode (%s %s)", in.Name, in.Ver, in.Valid, in.VErr)
 		}
 		nSubj++
-		rec.Reset(kv{"fam": "body", "type": in.Name, "ver": in.Ver, "len": in.Len, "ncells": in.NCells,
+		rec.Reset(kv{"fam": "body", "orig": in.Orig})
+		det.Reset(kv{"fam": "body", "type": in.Name, "ver": in.Ver, "len": in.Len, "ncells": in.NCells,
 			"hasrecs": in.HasRecs, "comp": in.Comp, "wrapped": in.Wrapped, "orig": in.Orig})
 		ds := bySubj[si]
 		sort.Slice(ds, func(a, b int) bool { return ds[a].B.Ci < ds[b].B.Ci })
 		for _, d := range ds {
 			c := d.B.Case
-			dmg := in.HasRecs && !in.Wrapped && !c.Fix && c.Kind != "rand"
+			// the checksum clause speaks about checksummed data: a bare Record (no CRC of its own) re-parsed
+			// consistently after a length change is a valid encoding of another record, not damage
+			dmg := in.HasRecs && in.HasCrc && !in.Wrapped && !c.Fix && c.Dmg
 			ev := kv{"type": in.Name, "ver": in.Ver, "ci": d.B.Ci, "kind": c.Kind, "trig": c.Trig, "prim": c.Prim, "caller": c.Caller,
-				"fix": c.Fix, "pos": c.Pos, "inlen": d.B.InLen, "comp": in.Comp, "dmg": dmg,
+				"fix": c.Fix, "pos": c.Pos, "runver": c.RunVer, "inlen": d.B.InLen, "comp": in.Comp, "dmg": dmg,
 				"res": d.R.Res, "err": d.R.Err, "site": d.R.Site, "cause": d.R.Cause, "alloc": d.R.Alloc, "got": d.R.Got, "hex": d.B.Hex}
-			rec.Ev("dec", ev)
+			rec.Ev("dec", kv{"inlen": d.B.InLen, "comp": in.Comp, "dmg": dmg, "res": d.R.Res, "alloc": d.R.Alloc, "got": d.R.Got})
+			det.Ev("dec", ev)
 			nDec++
 			byRes[d.R.Res]++
 			byKind[c.Kind]++
@@ -614,10 +637,11 @@ func TestVerifDecoder(t *testing.T) {
 	}
 	nProg, progSummary := 0, kv{}
 	if progOut != nil {
-		nProg = progOut.emit(rec)
+		nProg = progOut.emit(rec, det)
 		progSummary = progOut.summary()
 	}
 	rec.Close()
+	det.Close()
 	vWriteJSON(t, "summary.json", kv{
 		"subjects": nSubj, "decodes": nDec, "programs": nProg, "by_result": byRes, "by_kind": byKind,
 		"distinct_behaviours": len(distinct), "worker_spawns": spawns, "skipped": skips, "samples": samples,
@@ -693,7 +717,7 @@ func vdCellBytes(st vdStep) []byte {
 		return vdUvar(uv)
 	case "getString", "getNullableString":
 		return vdI16(int(sv))
-	case "getArrayLength", "getBytes", "getInt32Array", "getInt64Array", "getStringArray":
+	case "getArrayLength", "getBytes", "getInt32Array", "getInt64Array", "getStringArray", "pushLen":
 		b := make([]byte, 4)
 		binary.BigEndian.PutUint32(b, uint32(sv))
 		return b
@@ -765,16 +789,10 @@ func vdRunStep(rd *realDecoder, st vdStep, pushed *[]pushDecoder) (ret int64, ha
 	case "pushVarLen":
 		err = rd.push(&varintLengthField{})
 	case "pop":
-		// the adversary writes the field the pending push will check: good = consistent, bad = off by one
+		// length fields were read at push; a CRC field is checked now: the adversary writes it
+		// consistent (good) or one bit off (bad)
 		top := rd.stack[len(rd.stack)-1]
 		switch x := top.(type) {
-		case *lengthField:
-			v := int32(rd.off - x.startOffset - 4)
-			if st.Cls == "bad" {
-				v++
-			}
-			x.length = v // lengthField.check compares with the value decode() read; static push reads nothing
-			binary.BigEndian.PutUint32(rd.raw[x.startOffset:], uint32(v))
 		case *crc32Field:
 			c := crc32.ChecksumIEEE(rd.raw[x.startOffset+4 : rd.off])
 			if st.Cls == "bad" {
@@ -883,8 +901,9 @@ func vdReadLinesFile(t testing.TB, p string) []string {
 
 type vdProgOut struct {
 	progs []vdProg
-	steps map[int][]vdStepRes
-	spawn int
+	steps  map[int][]vdStepRes
+	spawn  int
+	nsteps int
 }
 
 func vdRunPrograms(t *testing.T, dir string) *vdProgOut {
@@ -975,21 +994,29 @@ func vdRunPrograms(t *testing.T, dir string) *vdProgOut {
 	return out
 }
 
-func (o *vdProgOut) emit(rec *vRec) int {
+func (o *vdProgOut) emit(rec, det *vRec) int {
 	n := 0
-	rec.Reset(kv{"fam": "prog", "type": "realDecoder", "ver": 0, "len": 0, "ncells": 0, "hasrecs": false, "comp": false, "wrapped": false, "orig": []string{}})
+	rec.Reset(kv{"fam": "prog", "orig": []string{}})
+	det.Reset(kv{"fam": "prog", "orig": []string{}})
 	for pi, p := range o.progs {
 		srs := o.steps[pi]
 		if len(srs) == 0 {
 			continue
 		}
-		var steps []kv
+		if n > 0 && n%1500 == 0 { // keep the traces small enough to be dealt to parallel TLC processes
+			rec.Reset(kv{"fam": "prog", "orig": []string{}})
+			det.Reset(kv{"fam": "prog", "orig": []string{}})
+		}
 		for _, sr := range srs {
 			st := p.Steps[sr.K]
-			steps = append(steps, kv{"op": st.Op, "cls": st.Cls, "v": st.V, "moff0": st.Off0, "mres": st.Res, "moff": st.Off1, "mretc": st.Retc,
-				"off0": sr.Off0, "res": sr.Res, "off": sr.Off, "ret": sr.Ret, "retc": sr.Retc, "alloc": sr.Alloc, "site": sr.Site, "cause": sr.Cause})
+			rec.Ev("pstep", kv{"len": p.Len, "moff0": st.Off0, "mres": st.Res, "moff": st.Off1, "mretc": st.Retc,
+				"off0": sr.Off0, "res": sr.Res, "off": sr.Off, "retc": sr.Retc, "alloc": sr.Alloc})
+			det.Ev("pstep", kv{"pi": pi, "k": sr.K, "len": p.Len, "nsteps": len(p.Steps), "op": st.Op, "cls": st.Cls, "v": st.V,
+				"moff0": st.Off0, "mres": st.Res, "moff": st.Off1, "mretc": st.Retc,
+				"off0": sr.Off0, "res": sr.Res, "off": sr.Off, "ret": sr.Ret, "retc": sr.Retc, "alloc": sr.Alloc,
+				"site": sr.Site, "cause": sr.Cause, "err": sr.Err})
+			o.nsteps++
 		}
-		rec.Ev("prog", kv{"pi": pi, "len": p.Len, "nsteps": len(p.Steps), "steps": steps})
 		n++
 	}
 	return n
